@@ -46,6 +46,9 @@ TRUSTED = [
 ]
 ASSUMPTIONS = [
     "trees: depth <= 3, <= 6 user modes per circuit, <= 3 declared heralds per circuit, photon numbers 0-2",
+    "histories: parents with 1-5 user modes that acquire 1-6 private ancillas before the calls under test; call "
+    "forms = omitted / None / keyword / reordered-keyword arguments of the documented signatures (argument TYPES "
+    "other than int / list / dict are not varied)",
     "amplitude-level clause follows from the matrix-level one by the Fock functor (DESIGN §4); checked "
     "numerically on the implementation's Simulator by C03/C05",
 ]
@@ -293,7 +296,7 @@ def run(ctx: Ctx) -> None:
 
     t1 = time.time()
     # -- 2. randomised histories
-    for i in range(ctx.n(110, 4000)):
+    for i in range(ctx.n(110, 2500)):
         if ctx.out_of_time():
             break
         if i % 8 == 7:
